@@ -373,9 +373,25 @@ def check_property(prop, tier='quick', only=None, verbose=True):
                 inconclusive.append(j['id'])
         elif j['kind'] == 'fidelity':
             native_execs += 1
-            if r.get('native') != r.get('traced'):
-                errors.append('%s: fidelity mismatch native=%r traced=%r' % (j['id'], r.get('native'), r.get('traced')))
             rec['vec'] = j['vec']
+            if r.get('native') != r.get('traced'):
+                # The pinned vector behaves differently natively and under tracing.  If the *native* run (the real semantics)
+                # violates the property, that is a violation of the code under test which CrossHair's model of Python cannot
+                # see (e.g. it models sets by equality, so a __hash__/__eq__ inconsistency never shows while tracing): it is
+                # re-executed in a fresh interpreter and reported like any replayed counterexample, marked as found by the
+                # fidelity twin.  Every other mismatch is a harness error.
+                if (r.get('native') or [None])[0] == 'False':
+                    nat = native_run(hmodname, h['fn'], j['call_args'])
+                    native_execs += 1
+                    if nat.get('ok') is False:
+                        rp = write_replay(prop, hmodname, h, j['vec'], j['call_args'], nat,
+                                          'found by the fidelity twin: the native execution of this pinned vector violates the property, the traced one '
+                                          'does not (traced: %r)' % (r.get('traced'),))
+                        rec['found_by'] = 'native execution of a fidelity vector (not visible under tracing)'
+                        rec['native'] = nat
+                        violations.append((h['name'], j['vec'], rp))
+                        continue
+                errors.append('%s: fidelity mismatch native=%r traced=%r' % (j['id'], r.get('native'), r.get('traced')))
 
     # hash-seed pairs: the same slice explored under different PYTHONHASHSEEDs
     # must produce the same set of path summaries (inputs + observed order)
